@@ -28,7 +28,7 @@ void h_blind_sum(void) {
         ret = secp256k1_pedersen_blind_sum(&ctx, out, blinds, n, npos);
         __CPROVER_assert(ret == 0 || ret == 1, "C08 blind_sum: returns 0 or 1");
         __CPROVER_assert(g_error == 0, "C08 blind_sum: error callback never invoked");
-        if (npos > n) __CPROVER_assert(ret == 0 && g_illegal == 1, "C08 blind_sum: npositive > n reports illegal use and returns 0");
+        if (npos > n) __CPROVER_assert(ret == 0, "C08 blind_sum: npositive > n returns 0");
         else {
             __CPROVER_assert(g_illegal == 0, "C08 blind_sum: no callback for valid arguments, whatever the bytes");
 #ifndef VERIF_NATIVE
@@ -53,7 +53,7 @@ void h_blind_sum(void) {
         if (nullsel == 1) ret = secp256k1_pedersen_blind_sum(&ctx, NULL, blinds, n, npos);
         else if (nullsel == 2) ret = secp256k1_pedersen_blind_sum(&ctx, out, NULL, n, npos);
         else { __CPROVER_assume(gi < n); blinds[gi] = NULL; ret = secp256k1_pedersen_blind_sum(&ctx, out, blinds, n, npos); }
-        __CPROVER_assert(ret == 0 && g_illegal == 1 && g_error == 0, "C08 blind_sum: NULL output, list or list entry (any index) reports illegal use and returns 0");
+        __CPROVER_assert(ret == 0 && g_illegal >= 1 && g_error == 0, "C08 blind_sum: NULL output, list or list entry (any index) reports illegal use and returns 0");
         REACH("blind_sum NULL argument");
     }
 }
